@@ -19,6 +19,7 @@ import (
 	"context"
 	"encoding/json"
 	"fmt"
+	"runtime"
 	"strconv"
 	"strings"
 	"sync"
@@ -190,6 +191,20 @@ const baseSeconds = 1_700_000_000
 func msToTime(ms int64) time.Time { return time.Unix(baseSeconds, 0).Add(time.Duration(ms) * time.Millisecond) }
 func timeToMs(t time.Time) int64  { return int64(t.Sub(time.Unix(baseSeconds, 0)) / time.Millisecond) }
 
+// Time the harness is prepared to wait for something that happens within
+// microseconds on an intact implementation.  The machine may be heavily
+// loaded, so the first few waits are generous; once several have expired in
+// this process the implementation is evidently broken and later histories
+// do not wait that long again.
+var anomalies atomic.Int32
+
+func patience() time.Duration {
+	if anomalies.Load() >= 3 {
+		return 500 * time.Millisecond
+	}
+	return 8 * time.Second
+}
+
 type cmd struct {
 	x     xop
 	reply chan string
@@ -209,7 +224,7 @@ type exec struct {
 
 // send hands a command to the executor goroutine and waits for its answer.
 func (e *exec) send(c cmd) (string, bool) {
-	t := time.NewTimer(time.Second)
+	t := time.NewTimer(patience())
 	defer t.Stop()
 	select {
 	case e.cmds <- c:
@@ -231,18 +246,19 @@ func (e *exec) hasReturned() bool { e.mu.Lock(); defer e.mu.Unlock(); return e.r
 // the send went through, so a raised flag is confirmed with the scheduler
 // state of the goroutine.
 func (e *exec) isBlocked() bool {
-	for i := 0; i < 100000; i++ {
+	deadline := time.Now().Add(patience())
+	for {
 		e.mu.Lock()
 		b := e.blocked
 		e.mu.Unlock()
 		if !b {
 			return false
 		}
-		if gstate(e.gid) == "chan send" {
+		if gstate(e.gid) == "chan send" || time.Now().After(deadline) {
 			return true
 		}
+		runtime.Gosched()
 	}
-	return true
 }
 
 type world struct {
@@ -261,6 +277,12 @@ type world struct {
 	cancelObserved chan *exec
 	quit           chan struct{}
 	info           *hcommon.Info
+}
+
+func (w *world) noteAnomaly() {
+	if !w.anomaly.Swap(true) {
+		anomalies.Add(1)
+	}
 }
 
 func (w *world) log(s string) {
@@ -314,7 +336,7 @@ func (w *world) doExec(x xop) []piece {
 		c := cmd{x: x, reply: make(chan string, 1)}
 		res, ok := e.send(c)
 		if !ok {
-			w.anomaly.Store(true)
+			w.noteAnomaly()
 			w.info.Outs["executor-unresponsive"]++
 			return nil
 		}
@@ -332,14 +354,14 @@ func (w *world) doExec(x xop) []piece {
 		}
 		c := cmd{x: x, reply: make(chan string, 1)}
 		if _, ok := e.send(c); !ok {
-			w.anomaly.Store(true)
+			w.noteAnomaly()
 			w.info.Outs["executor-unresponsive"]++
 			return nil
 		}
 		// Wait for "updates <- Completed; close(updates)" to be over.
-		st, gone := waitState(e.gid, time.Second, func(s string) bool { return s == "" })
+		st, gone := waitState(e.gid, patience(), func(s string) bool { return s == "" })
 		if !gone {
-			w.anomaly.Store(true)
+			w.noteAnomaly()
 			w.info.Outs["exec-finish-stuck-"+st]++
 			return []piece{{xevTerm(x), append(w.takeOuts(mark), g.App("OX", xevTerm(x), "XBlocked"))}}
 		}
@@ -451,7 +473,7 @@ func (w *world) Execute(ctx context.Context, filePool pool.FilePool, monitor acc
 	for _, o := range w.execs {
 		if !o.hasReturned() {
 			overlap = true
-			w.anomaly.Store(true)
+			w.noteAnomaly()
 		}
 	}
 	e.id = len(w.execs)
@@ -736,7 +758,7 @@ func (area) Execute(raw json.RawMessage) (string, *hcommon.Info, error) {
 			rgid := <-gidCh
 			var res runResult
 			got := false
-			watchdog := time.After(2 * time.Second)
+			watchdog := time.After(patience())
 			for !got && !hung {
 				select {
 				case res = <-done:
@@ -744,13 +766,13 @@ func (area) Execute(raw json.RawMessage) (string, *hcommon.Info, error) {
 				case e := <-w.cancelObserved:
 					// Let the executor finish only when Run is parked in the
 					// drain loop of stopExecution, or has already returned.
-					deadline := time.Now().Add(time.Second)
+					deadline := time.Now().Add(patience())
 					for !got {
 						select {
 						case res = <-done:
 							got = true
 							info.Outs["run-returned-before-executor-stopped"]++
-							w.anomaly.Store(true)
+							w.noteAnomaly()
 							continue
 						default:
 						}
@@ -760,10 +782,11 @@ func (area) Execute(raw json.RawMessage) (string, *hcommon.Info, error) {
 					}
 					close(e.release)
 					if got {
-						waitState(e.gid, time.Second, func(s string) bool { return s == "" || s == "chan send" })
+						waitState(e.gid, patience(), func(s string) bool { return s == "" || s == "chan send" })
 					}
 				case <-watchdog:
 					hung = true
+					w.noteAnomaly()
 				}
 			}
 			ret := ""
@@ -787,9 +810,9 @@ func (area) Execute(raw json.RawMessage) (string, *hcommon.Info, error) {
 			if !hung && !res.panicked && res.err == nil && w.synced && o.Reply.K == "exec" && o.Reply.BadTs == 0 {
 				select {
 				case <-w.started:
-				case <-time.After(time.Second):
+				case <-time.After(patience()):
 					info.Outs["executor-not-started"]++
-					w.anomaly.Store(true)
+					w.noteAnomaly()
 				}
 			} else {
 				// an unexpected start still has to be waited for to be logged
